@@ -6,7 +6,7 @@ from fibertree import Fiber, Payload, Tensor  # noqa: E402
 from fibertree.model.format import Format  # noqa: E402
 from . import proj  # noqa: E402
 
-IDS = ["K", "M", "N"]
+IDS = ["K", "M", "N", "P"]
 FIELDS = {"fmt": "format", "rh": "rhbits", "fh": "fhbits", "c": "cbits", "p": "pbits", "layout": "layout"}
 
 
@@ -27,6 +27,15 @@ def execute(case):
         rs = {k2: case["rootspec"][k] for k, k2 in (("h", "hbits"), ("p", "pbits")) if case["rootspec"][k] != -1}
         if rs or case.get("with_root", 1):
             spec["root"] = rs
+        if case.get("narrow"):
+            # active ranges narrower than the declared shapes (what a split leaves behind): footprints are defined by the shape
+            def nar(f):
+                if f.coords and isinstance(f.coords[0], int):
+                    f.setActive((min(f.coords), max(f.coords) + 1))
+                for p in f.payloads:
+                    if isinstance(p, Fiber):
+                        nar(p)
+            nar(t.getRoot())
         out["pre"] = proj.proj_tensor(t, oids)
         fm = Format(t, spec)
         for q in case["queries"]:
